@@ -2,6 +2,7 @@
 From Coq Require Import List NArith Bool Arith Lia.
 From CC Require Import Policy Structure Keys KeysMachine DisabledProofs KInv1 KInv2 KInv3 KInv4 KInv4b KInv5 KInv6 KInv7 KInv8 KInv9 KInv10.
 From CC Require KeysTheorems.
+From CC Require KInv11.
 Import ListNotations.
 
 (* ---- over all reachable states of the key-management state machine (KInv*.v, gathered in KeysTheorems.v) ---- *)
@@ -50,4 +51,64 @@ Theorem C16_I2_tokens_unique :
 Proof. exact (@KeysTheorems.I2_tokens_unique). Qed.
 Print Assumptions C16_I2_tokens_unique.
 
+(* ---- "every rekey publishes a public value never published before", over histories (coq/KInv11.v) ----
+   The token published for a right never decreases along a history without OSetup (OSetup starts a new master key and
+   restarts the counter: the unrestricted statement is refuted below), also across steps in which the right is disabled,
+   deleted and re-created; hence a value that has been REPLACED is never published again - by update, rekey, prune or
+   re-derivation - nor handed out in any later public-key snapshot. *)
+Theorem C16_published_monotone_reach :
+  forall (s : state) (ops : list op) (r : rightk) (t t' : N),
+       reach s -> ~ In OSetup ops ->
+       KInv11.pub_tok s r = Some t -> KInv11.pub_tok (run_state fixed s ops) r = Some t' -> (t <= t')%N.
+Proof. exact (@KInv11.published_monotone_run). Qed.
+Print Assumptions C16_published_monotone_reach.
 
+Theorem C16_replaced_never_republished_reach :
+  forall (s : state) (ops1 ops2 : list op) (r : rightk) (t t' : N),
+       reach s -> ~ In OSetup ops1 -> ~ In OSetup ops2 ->
+       KInv11.pub_tok s r = Some t ->
+       KInv11.pub_tok (run_state fixed s ops1) r = Some t' -> t' <> t ->
+       KInv11.pub_tok (run_state fixed (run_state fixed s ops1) ops2) r <> Some t.
+Proof. exact (@KInv11.replaced_never_republished). Qed.
+Print Assumptions C16_replaced_never_republished_reach.
+
+Theorem C16_deleted_never_republished_reach :
+  forall (s : state) (ops1 ops2 : list op) (r : rightk) (t : N),
+       reach s -> ~ In OSetup ops1 -> ~ In OSetup ops2 ->
+       KInv11.pub_tok s r = Some t ->
+       KInv11.front_tok (run_state fixed s ops1) r = None ->
+       KInv11.front_tok (run_state fixed (run_state fixed s ops1) ops2) r <> Some t /\
+       KInv11.pub_tok (run_state fixed (run_state fixed s ops1) ops2) r <> Some t.
+Proof. exact (@KInv11.deleted_never_republished). Qed.
+Print Assumptions C16_deleted_never_republished_reach.
+
+Theorem C16_rekeyed_never_republished_reach :
+  forall (s : state) (p : str) (rs : list rightk) (r : rightk) (t : N) (ops : list op),
+       reach s ->
+       snd (step fixed s (ORekey p)) = ObOk ->
+       usk_rights fixed (m_st (st_msk s)) p = ROk rs -> In r rs -> ~ In OSetup ops ->
+       KInv11.pub_tok s r = Some t ->
+       (exists t' : N, KInv11.pub_tok (fst (step fixed s (ORekey p))) r = Some t' /\ (st_ctr s <= t')%N /\ (t < t')%N) /\
+       KInv11.pub_tok (run_state fixed (fst (step fixed s (ORekey p))) ops) r <> Some t.
+Proof. exact (@KInv11.rekeyed_never_republished). Qed.
+Print Assumptions C16_rekeyed_never_republished_reach.
+
+Theorem C16_replaced_never_in_later_snapshot_reach :
+  forall (s : state) (ops1 ops2 : list op) (r : rightk) (t t' : N) (j : nat) (pk : mpk) (sk : secret),
+       reach s -> ~ In OSetup ops1 -> ~ In OSetup ops2 ->
+       KInv11.pub_tok s r = Some t ->
+       KInv11.pub_tok (run_state fixed s ops1) r = Some t' -> t' <> t ->
+       (length (st_mpks (run_state fixed s ops1)) <= j)%nat ->
+       nth_error (st_mpks (run_state fixed (run_state fixed s ops1) ops2)) j = Some pk ->
+       rlookup r (p_keys pk) = Some sk -> tok sk <> t.
+Proof. exact (@KInv11.replaced_never_in_later_snapshot). Qed.
+Print Assumptions C16_replaced_never_in_later_snapshot_reach.
+
+Theorem C16_republish_with_setup_refuted :
+  ~ (forall (s : state) (ops1 ops2 : list op) (r : rightk) (t t' : N),
+        reach s ->
+        KInv11.pub_tok s r = Some t ->
+        KInv11.pub_tok (run_state fixed s ops1) r = Some t' -> t' <> t ->
+        KInv11.pub_tok (run_state fixed (run_state fixed s ops1) ops2) r <> Some t).
+Proof. exact KInv11.replaced_never_republished_with_setup_refuted. Qed.
+Print Assumptions C16_republish_with_setup_refuted.
